@@ -67,6 +67,7 @@ def gen_case(seed):
         if u[0] in ("a", "w"):
             pos = order.index(("n", u[1])) + 1
             order.insert(pos + rng.randrange(0, len(order) - pos + 1), u)
+    order = progen.declared_first(prog, order)   # a caller that declares dependencies=[...] is defined after them
     defined = set()
     cur = prog
     counter = 1
